@@ -305,6 +305,33 @@ fn grid_job<Q: QueueLike>(n: usize, pat: usize) -> Result<JobOut, String> {
             }
         }
     }
+    // the same with capacity left behind by the queues' earlier life (reserve / grown and popped
+    // down): the cost class of append may not depend on it
+    for (label, m_of, above) in [("append n (roomy receiver)", n, true), ("append n/2 (roomy receiver)", (n / 2).max(1), true), ("append n (roomy receiver, below)", n, false)] {
+        for history in 0..3 {
+            let mut a: Q = Q::q_from_vec(mk_vec(0));
+            let m = m_of;
+            let mut b: Q = Q::q_from_vec((0..m).map(|i| (Item::new(2_000_000_000 + i as u32, 0), Prio::new(if above { gmax + 1 + i as i32 } else { gmin - 1 - i as i32 }))).collect());
+            match history {
+                0 => a.q_reserve(2 * n + 8),
+                1 => {
+                    // once three times as long, then popped down to n
+                    for i in 0..(2 * n) {
+                        a.q_push(Item::new(1_500_000_000 + i as u32, 0), Prio::new(gmax + 1));
+                    }
+                    for _ in 0..(2 * n) {
+                        a.q_pop_hi();
+                    }
+                }
+                _ => {
+                    a.q_reserve(2 * n + 8);
+                    b.q_reserve(4 * n + 8);
+                }
+            }
+            let total = a.q_len() + m;
+            bulk!(format!("{label}, history {history}"), total, a.q_append(&mut b));
+        }
+    }
     let len = q.q_len();
     let o: Q::Other = bulk!("conversion", len, q.q_into_other());
     let len = o.q_len();
